@@ -4,6 +4,7 @@ package live
 
 import (
 	"fmt"
+	"math"
 	"time"
 
 	"gitlab.com/gomidi/midi/v2"
@@ -193,6 +194,35 @@ func (l *Loop) Run(chunks []Chunk, o Opts) (obs []Obs, failed string) {
 
 // Chunking draws a partition of stream into delivery chunks (empty chunks allowed).
 func Chunking(t *rapid.T, stream []byte, maxDelta int32) []Chunk {
+	return chunking(t, stream, maxDelta)
+}
+
+// ChunkingToLastStamp is Chunking for receivers whose clock starts at zero: the accumulated
+// delivery time may reach the last value of the 32-bit time stamps.
+func ChunkingToLastStamp(t *rapid.T, stream []byte, maxDelta int32) []Chunk {
+	out := chunking(t, stream, maxDelta)
+	// one stream in forty reaches the very end of the range of the 32-bit time stamps: a pause is
+	// stretched so that the accumulated delivery time is exactly 2^31-1 ms (or one or two less) at
+	// some chunk, everything after it follows without a pause
+	if maxDelta >= 5000 && len(out) > 0 && rapid.IntRange(0, 39).Draw(t, "reachLastTimeStamp?") == 0 {
+		k := rapid.IntRange(0, len(out)-1).Draw(t, "lastTimeStampAt")
+		target := int64(math.MaxInt32) - int64(rapid.SampledFrom([]int{0, 0, 0, 1, 2}).Draw(t, "below"))
+		var sum int64
+		for i := 0; i < k; i++ {
+			sum += int64(out[i].Delta)
+		}
+		out[k].Delta = int32(target - sum)
+		for i := k + 1; i < len(out); i++ {
+			out[i].Delta = 0
+			if target < math.MaxInt32 && i == k+1 {
+				out[i].Delta = int32(math.MaxInt32 - target)
+			}
+		}
+	}
+	return out
+}
+
+func chunking(t *rapid.T, stream []byte, maxDelta int32) []Chunk {
 	var out []Chunk
 	mode := rapid.IntRange(0, 4).Draw(t, "chunkMode")
 	// a few pauses per stream may be very long (up to 2^28 ms, about three days); the sum of all
